@@ -11,7 +11,7 @@ from typing import Dict, List, Optional
 
 from .executor import Executor, HandlerSpec, Path
 from .loader import AnalysisError, Program
-from .model import Site, config_space, find_sites, valuations
+from .model import Site, config_space, domains, find_sites, valuations
 from .terms import KINDS
 
 VERIF = os.path.dirname(os.path.dirname(os.path.abspath(__file__)))
@@ -214,9 +214,23 @@ class Ctx:
 
     # ---- paths -------------------------------------------------------
     def space(self, spec: HandlerSpec):
-        key = ("space", id(spec.fn))
+        key = ("space", id(spec.fn), spec.ctx_key)
         if key not in self._cache:
-            self._cache[key] = config_space(self.program, spec)
+            space = config_space(self.program, spec)
+            # tests on factory parameters met by the path enumeration itself (handlers reached through a dispatch
+            # table or a shared template are not visible to the syntactic scan above)
+            found = {}
+            for kind in (KINDS if spec.event_param is not None and spec.label == "on_next" else (None,)):
+                try:
+                    self.ex.run(spec, kind, {}, max_iter=1)
+                except AnalysisError:
+                    continue
+                for n, ks in self.ex.undecided.items():
+                    found.setdefault(n, set()).update(ks)
+            for n, vals in domains(found).items():
+                if n not in space and vals:
+                    space[n] = vals
+            self._cache[key] = space
         return self._cache[key]
 
     def paths(self, spec: HandlerSpec, kind, cfg: Dict[str, str], max_iter=None) -> List[Path]:
